@@ -235,10 +235,10 @@ class C13(core.Check):
         # (state, kinds, sweeps, prelock, bound, cap)
         if q:
             return [('expired', [R, R], 1, 1, 2, 3000), ('new', [R, R], 1, 0, 2, 2000),
-                    ('expired', [G, R], 1, 1, 2, 1500), ('live', [R, G], 1, 1, 1, 1500),
-                    ('missing', [R, F], 1, 0, 1, 1000), ('live', [R, R, R], 0, 1, 2, 1500),
-                    ('expired', [R, R, R], 1, 1, 1, 1500), ('live', [N, R], 1, 0, 2, 1000),
-                    ('expired', [R, F], 2, 0, 1, 1000)]
+                    ('expired', [G, R], 1, 1, 2, 700), ('live', [R, G], 1, 1, 1, 700),
+                    ('missing', [R, F], 1, 0, 1, 600), ('live', [R, R, R], 0, 1, 2, 700),
+                    ('expired', [R, R, R], 1, 1, 1, 700), ('live', [N, R], 1, 0, 2, 500),
+                    ('expired', [R, F], 2, 0, 1, 600)]
         return [('expired', [R, R], 1, 1, 3, 60000), ('expired', [R, R], 1, 0, 3, 60000),
                 ('new', [R, R], 1, 0, 3, 40000), ('expired', [G, R], 1, 1, 2, 20000),
                 ('live', [R, G], 1, 1, 2, 20000), ('missing', [R, F], 1, 0, 2, 20000),
